@@ -23,13 +23,13 @@ type genTextOpts struct {
 }
 
 var gtWS = []string{" ", " ", " ", "\t", "  ", " \t", " ", " ", "\t\t ", "\v", "\f", "  ", "\t ", "  ", "  \t", "　", "\r ", " "}
-var gtKeys = []string{"a", "goos", "pkg", "k-1", "é", "ключ", "x/y", "a.b", "cpu", "b", "a\x00b", "z\xff", "unit", "benchmark", "u"}
+var gtKeys = []string{"a", "goos", "pkg", "k-1", "é", "ключ", "x/y", "a.b", "cpu", "b", "a\x00b", "z\xff", "unit", "benchmark", "u", "a\u01c5", "d\u01c8x"} // title-case letters (neither lower nor upper case) may follow the first letter
 var gtVals = []string{"1", "2", "linux", "darwin", "Intel(R) Core(TM) i7", "x  y", "v:1", "é世", "a\tb", "key: value", "Benchmark", "-", "0", "trail  ", "\xffbad", "a b", "BenchmarkX 1 1 ns/op", "Unit ns/op a=b", "\u00a0nb", "nb\u00a0", "vt\v", "\u3000wide\u3000", "c\x1bl"}
 var gtSeps = []string{": ", ": ", ":\t", ":  ", ": \t ", ":\t\t"}
 var gtNames = []string{"X", "Y", "Foo/bar", "Foo/k=v/j=w-8", "é", "世/x=1", "\xff", "", "A-16", "A/-", "Sub/a=b/c", "*", "X:y", "Esc\x1b[1m", "N\x00ul", "US\x1fx", "x", "lower/case", "ing", "Benchmark", "BenchmarkTwice-4", "_under", "1"}
 var gtUnits = []string{"ns/op", "MB/s", "B/op", "allocs/op", "ns/ns", "MB*ns/op", "foo-ns", "xns", "custom", "ns", "sec/op", "B/s", "ns/MB", "é/op", "\xfe/op", "a=b", "u\x1f/op", "\x01ns", "\x1cs/op"}
 var gtNums = []string{"1", "0", "5", "100", "1.5", "-3", "+7", "1e9", "1e-9", "0x1p-2", "inf", "+Inf", "-inf", "NaN", "nan", "-0", "1e308", "4.9e-324",
-	"123456789012345678", "9223372036854775807", "9223372036854775808", "9999999999999999999", "18446744073709551616", "1234567890123456789", "0.1", ".5", "5.", "0x_1p-2", "00012", "2.5e+3", "+Infinity", "-infinity", "iNf", "INFINITY", "nAn", "1E5", "0X1P+3", "-.5e-3"}
+	"123456789012345678", "9223372036854775807", "9223372036854775808", "9999999999999999999", "18446744073709551616", "1234567890123456789", "0.1", ".5", "5.", "0x_1p-2", "00012", "2.5e+3", "3e+23", "7e+25", "1e23", "2e-300", "8.691694759794e-311", "0x1p-1030", "+Infinity", "-infinity", "iNf", "INFINITY", "nAn", "1E5", "0X1P+3", "-.5e-3"}
 var gtBadNums = []string{"1_0", "0b1", "abc", "1e999", "1e", "--1", "1..2", "0x", "é", "1,5", "1e99999", "-nan", "+NaN", "-NAN", "infinit", "in", "+-1", "0x1", "1e+", ".", "+", "-"}
 var gtIters = []string{"1", "1", "100", "0", "-1", "+5", "1000000000", "9223372036854775807", "007"}
 var gtBadIters = []string{"x", "1.5", "9223372036854775808", "99999999999999999999", "1e3", "0x10", "", "1_000"}
@@ -147,6 +147,9 @@ func genBenchText(T *sim.Tape, opts genTextOpts) []byte {
 	longAt := -1
 	if opts.longLine && n > 0 {
 		longAt = T.Intn(n, "longat")
+	}
+	if n > 0 && T.Intn(12, "bom") == 0 {
+		b.WriteString("\xef\xbb\xbf") // a byte order mark: the first line no longer starts with a letter and is a foreign line
 	}
 	for i := 0; i < n; i++ {
 		var line string
